@@ -84,7 +84,7 @@ inline std::string indexLine (const FnRecord& r, const Needs& nd)
     for (long l : nd.lits) lits.push_back (std::to_string (l));
     for (auto& p : r.params) ps.push_back (p.name + ":" + (p.shape ? p.shape->lean : "-"));
     std::vector<std::string> os;
-    for (auto& o : r.outs) os.push_back (o.kind == OutItem::AGG ? o.shape->lean : o.kind == OutItem::SCALAR ? "-" : o.kind == OutItem::BOOL ? "B" : "I");
+    for (auto& o : r.outs) os.push_back (o.kind == OutItem::AGG ? o.shape->lean : o.kind == OutItem::SCALAR ? "-" : o.kind == OutItem::BOOL ? "B" : o.kind == OutItem::STR ? "S" : "I");
     s << "FN " << r.name << " | cls=" << join (cls) << " | lits=" << join (lits) << " | extra=" << join (ex) << " | params=" << join (ps)
       << " | outs=" << join (os) << " | throws=" << (r.throws ? 1 : 0) << " | paths=" << r.paths.size () << " | status=" << r.status << " | module=" << r.module;
     return s.str ();
